@@ -100,7 +100,7 @@ func checkWriterStaging(r *Run, p *Prog) {
 		q, vis := c.ReachAvoiding([]Point{c.Entry()}, nil, isLoopEval)
 		nSucc := 0
 		for _, ex := range c.Exits() {
-			if ex.Return == nil || len(ex.Return.Results) != 1 || !isNilIdent(fn, ex.Return.Results[0]) {
+			if ex.Return == nil || !mayReturnNilError(fn, ex.Return) {
 				continue
 			}
 			nSucc++
